@@ -1682,6 +1682,9 @@ namespace ipr::impl {
 
       const ipr::Identifier& name_factory::get_identifier(const ipr::String& s)
       {
+         // Reserved words are themselves identifiers; there is only one identifier per spelling.
+         if (auto id = word_if_known(s.characters()))
+            return *id;
          return *ids.insert(s, id_compare());
       }
 
